@@ -116,7 +116,9 @@ class Renderer:
 
     def intv(self, b: bytes, allow_neg=True, plus_ok=False):
         """d<int> spelling if b is the minimal encoding of a moderate int."""
-        if not b or len(b) > 6:
+        # (values beyond 2^53, where a detour through a float would round,
+        # are spelled in decimal too)
+        if not b or len(b) > 40:
             return None
         n = isa.int_dec(b)
         if isa.int_enc(n) != b:
